@@ -30,6 +30,7 @@ try:
                             "not_discharged": [b[:200] for b in bad][:4], "first": first, "wall_s": round(time.time() - t, 1)})
 finally:
     subprocess.run(["git", "-C", SEED_REPO, "checkout", "--", "."])
+    subprocess.run(["git", "-C", SEED_REPO, "clean", "-fdq"])
 res["alarms"] = sorted(r["property"] for r in res["runs"] if r["exit"] != 0)
 json.dump(res, open(os.path.join(d, "result.json"), "w"), indent=1)
 print(d, "alarms:", ", ".join(res["alarms"]) or "none")
